@@ -64,6 +64,17 @@ Theorem generated_file_hash_rejects_non_files : forall st n chunking,
   gen_file_calc calculate_file_body calculate_body st n chunking = (None, st).
 Proof. intros st n chunking Hn. destruct n; [destruct Hn| |]; reflexivity. Qed.
 
+(* The string entry point CalculateStringHash(hasher, text) AS TRANSLATED FROM THE SOURCE (Gen.v string_hash_body; the
+   translator also checks that CalculateHash / CalculateMD5Hash build a fresh hasher and call it, and that hashingAlgo has
+   no method besides CalculateWithContext / Calculate / GetType through which a digest could be computed another way):
+   after every history on the same hasher it returns H(text). *)
+Theorem generated_string_hash_history_independent : forall (hist : list (list ev)) (text : list Z),
+  digest_of (gen_string_hash string_hash_body calculate_body (run_hist_body calculate_body [] hist) text) = Some (H text).
+Proof.
+  intros hist text. rewrite generated_string_hash_is_calc, generated_run_hist.
+  apply digest_history_independent; [reflexivity | apply app_nil_r].
+Qed.
+
 (* "... on every filesystem backend": a back end whose handles of one file share a reading position (the tar file system:
    afero's tarfs).  Whatever was read from the file before — any list of earlier partial reads, complete reads and hash
    calculations — the hash of the file is H of ALL its bytes, because the library's tar adapter hands out rewound handles:
@@ -80,6 +91,7 @@ Qed.
 
 End WithH.
 Print Assumptions generated_file_hash_on_shared_handle_backend.
+Print Assumptions generated_string_hash_history_independent.
 Print Assumptions digest_history_independent.
 Print Assumptions digest_chunking_independent.
 Print Assumptions digest_only_of_complete_stream.
